@@ -201,7 +201,7 @@ def parent(args) -> int:
         inconclusive = list(problems)
         if not args.replay:
             for name in meta.get("required", []):
-                if agg["counters"].get(name, 0) == 0:
+                if agg["counters"].get(name, 0) == 0 and agg["features"].get(name, 0) == 0:
                     inconclusive.append(f"monitor/stratum '{name}' never evaluated")
             for spec, n in agg["reach"].items():
                 if n == 0 and spec not in meta.get("reach_optional", []):
